@@ -345,7 +345,9 @@ theorem inferDefault_val (it : Bool) (doc : Option String) (t : String) (d : Def
 
 theorem okSnt_wasNone {t : String} {d : Default} (h : okSnt t d = true) (hw : d.inNoneTypes = true) : startsWith t "Optional[" = true := by
   unfold okSnt at h
-  simpa [hw] using h
+  have := h
+  simp only [hw, Bool.and_eq_true, Bool.not_true, Bool.false_or] at this
+  exact this.2
 
 theorem okSnt_okInfer {t : String} {d : Default} (h : okSnt t d = true) : okInfer t d = true := by
   unfold okSnt at h
